@@ -610,7 +610,7 @@ fn main() {
     let run = Run::from_args("C17", "exploration");
     let selftest = std::env::var("VERIF_SELFTEST").unwrap_or_default();
     let threads = std::thread::available_parallelism().map(|n| n.get()).unwrap_or(4).min(16);
-    run.set_rule("case = (payload seed, 1-2 mdat boxes {payload length, 32-bit or 64-bit largesize header, lengths of the leading chunks; the rest is one final chunk}, fixed leaf size none|1 KB|64 KB, sha256|384|512, sequential or interleaved feeding). Grid part: every (first, second) chunk length in 0..=32 x 0..=16 for one mdat of an asset x 3 leaf modes (quick: one 70 000-byte 32-bit mdat; thorough: 6 assets incl. largesize, two mdats, 200 KB, exact-leaf payloads). Random part: 0..23 leading chunks per mdat with lengths biased to 0..8, 9..40, k*1024+-1, k*65536+-1 and large. Non-trivial = a first chunk of <= 16 bytes followed by more data, or (fixed leaf size) a chunk boundary that is not a leaf boundary.");
+    run.set_rule("case = (payload seed, 1-2 mdat boxes {payload length, 32-bit or 64-bit largesize header, lengths of the leading chunks; the rest is one final chunk}, fixed leaf size none|1 KB|64 KB, sha256|384|512, sequential or interleaved feeding). Grid part: every (first, second) chunk length in 0..=32 x 0..=16 for one mdat of an asset x 3 leaf modes (quick: one 70 000-byte 32-bit mdat, plus a two-mdat asset with 1 KB leaves; thorough: 6 more assets incl. largesize, two mdats, 200 KB, exact-leaf payloads). Random part: 0..23 leading chunks per mdat with lengths biased to 0..8, 9..40, k*1024+-1, k*65536+-1 and large. Non-trivial = a first chunk of <= 16 bytes followed by more data, or (fixed leaf size) a chunk boundary that is not a leaf boundary.");
     run.assume("caller contract taken from the SDK's own test: chunks are the mdat bytes after the box header (8 bytes, 16 for largesize with large_size=true), mdat ids count from 0 in file order, the fixed leaf size is set after placeholder() and before the first chunk, the caller reserves a free box of placeholder + leaves*hash_len + slack bytes and writes the signed uuid box at its start");
     run.assume("zero-length chunks are generated: the documentation of hash_bmff_mdat_bytes does not exclude them");
     run.assume("the leaf row of the signed assertion is read from the output asset's JUMBF with an own box walker + ciborium; reference leaves use the sha2 crate over the file bytes from mdat box offset 16");
@@ -622,6 +622,8 @@ fn main() {
     for (li, leaf_kb) in [0usize, 1, 64].iter().enumerate() {
         cases.extend(grid(0x17_0001, &quick_asset, 0, *leaf_kb, li as u8 % 3));
     }
+    // two mdat boxes (32-bit + largesize), split applied to the first, 1 KB leaves
+    cases.extend(grid(0x17_0002, &[(3_000, false), (2_000, true)], 0, 1, 0));
     if !run.quick() {
         let assets: Vec<(Vec<(usize, bool)>, usize)> = vec![
             (vec![(70_000, true)], 0),
@@ -648,6 +650,6 @@ fn main() {
     run.note("grid = all (first, second) chunk lengths 0..=32 x 0..=16 for the listed assets and leaf modes (complete over that grid, not over assets)");
 
     // ---- random multi-way splits -------------------------------------------------------------------------
-    run.drive_par("random_splits", run.scale(300, 3_000), threads, random_case(), |c| judge(&run, &selftest, c));
+    run.drive_par("random_splits", run.scale(1_500, 10_000), threads, random_case(), |c| judge(&run, &selftest, c));
     run.finish();
 }
